@@ -424,6 +424,8 @@ def gen(rng, tier):
             cases.append(mk(mode, wrap(mode, d4), [S(["aws"], "5"), S(["aws"], "{a: 1}"), S(["l"], "[]")], rp))
             cases.append(mk(mode, wrap(mode, d5), [S(["a"], '""'), S(["a"], "x"), S(["a"], "!!str 7")], rp))
     cases.append(mk("cli", wrap("cli", d3), [S(["pw"], "newpw", secret=True), S(["user"], "12", secret=True)]))
+    for t in SECRET_TEXTS:
+        cases.append(mk("cli", wrap("cli", d3), [S(["pw"], t, secret=True), S(["fresh"], t, secret=True)]))
     cases.append(mk("cli", ("map", [("imports", "", ("seq", [("s", "base", "")], False)),
                                     ("values", "", ("map", [("a", "", ("s", "1", ""))], False))], False),
                     [S(["imports", 1], "more"), R(["imports", 0]), R(["imports", 0]), R(["imports", 0]), R(["imports"])]))
@@ -623,6 +625,26 @@ def tup(n):
 
 def describe(c):
     return {"mode": c["mode"], "doc": c["doc"], "ops": [{k: v for k, v in o.items() if k != "ipath"} for o in c["ops"]]}
+
+
+SECRET_TEXTS = ['"line1\\nline2\\n"', '"tok\\r\\n"', '"\\n"', '"a\\n\\n"', '" lead"', '"trail "', '"\\ttab"', '"$$5 ${x}"', '"x\\u2028y"',
+                "|\n  block\n  text\n", "|-\n  stripped\n", "|+\n  kept\n\n", '"né"', '"-"', '"0"', '"null"', '"{a: 1}"', "''"]
+
+
+def extra_checks(ctx):
+    """`env set --secret <text>` then the backend's write-back (eval.EncryptSecrets) and opening with the matching decrypter:
+    the opened value at that path is exactly the text, flagged secret (observed by the handler, step field `opened`)"""
+    out = []
+    for c, o in zip(ctx["cases"], ctx["res"]["obs"]):
+        for i, st in enumerate(o.get("steps") or []):
+            op = st.get("opened")
+            if op is not None and (op.startswith("differs") or op == "panic"):
+                out.append({"kind": "spec-violation-on-implementation", "concrete": True,
+                            "case": {"mode": c.get("mode"), "doc": c.get("doc"), "ops": c["ops"][: i + 1]},
+                            "what": "after `env set --secret` the stored definition, encrypted by eval.EncryptSecrets and opened "
+                                    "with the matching decrypter, does not give back the text: " + op, "impl_obs": st})
+                return out
+    return out
 
 
 def distribution(cases, r):
